@@ -68,18 +68,22 @@ def _same_args(ctx, got, want):
 
 
 NAMES = [b"cat", b"job (batch) 17", b"job (batch) 18", b") ("]
+POPEN_EVENTS = ["exit-to-zombie", "exit-and-reap", "reuse-live", "status-collected", "is_running()"]
 DENY_EVENTS = ["exit-and-reap", "reuse-live", "stat-unreadable", "stat-readable-again", "is_running()"]
 
 
 @harness("C01.history",
          quick=[dict(K=K, what=w) for w in MUTATORS for K in ((0, 1, 2, 3) if w == "send_signal" else (2,))]
-         + [dict(K=2, what=w, variant="names") for w in ("terminate", "nice")] + [dict(K=3, what=w, variant="deny") for w in ("kill", "nice", "cpu_affinity")],
+         + [dict(K=2, what=w, variant="names") for w in ("terminate", "nice")] + [dict(K=3, what=w, variant="deny") for w in ("kill", "nice", "cpu_affinity")]
+         + [dict(K=3, what=w, variant="popen") for w in ("terminate", "nice")],
          thorough=[dict(K=K, what=w) for w in MUTATORS for K in ((3, 4) if w in ("send_signal", "nice", "cpu_affinity") else (3,))]
-         + [dict(K=3, what=w, variant="names") for w in MUTATORS] + [dict(K=K, what=w, variant="deny") for w in MUTATORS for K in (3, 4)])
+         + [dict(K=3, what=w, variant="names") for w in MUTATORS] + [dict(K=K, what=w, variant="deny") for w in MUTATORS for K in (3, 4)] + [dict(K=4, what=w, variant="popen") for w in MUTATORS])
 def history(ctx, K, what, variant=None):
     """variant "names": every incarnation carries a name from NAMES (parentheses and blanks that imitate the end of the name field)
     and the identity check must not depend on it; variant "deny": /proc/<pid>/stat may turn unreadable (EACCES) and readable again
-    between calls, and may be unreadable when the object is created (hidepid, dropped privileges)"""
+    between calls, and may be unreadable when the object is created (hidepid, dropped privileges); variant "popen": the object is a
+    psutil.Popen over a subprocess.Popen stand-in whose exit status may be collected at some point (event `status-collected`:
+    returncode set, as poll()/wait()/communicate() do)"""
     k = simk.Kernel(ctx)
     simk.system_files(k)
     inc = [ctx.int("start0", 0, 10**7)]
@@ -107,15 +111,30 @@ def history(ctx, K, what, variant=None):
 
     import contextlib
 
-    with k.installed(), contextlib.ExitStack() as stack:
-        p = psutil.Process(P)
+    class _Sub:
+        pid, returncode, stdin, stdout, stderr = P, None, None, None, None
+
+        def __init__(self, *a, **kw):
+            pass
+
+        def poll(self):
+            return self.returncode
+
+    class _Subprocess:
+        Popen = _Sub
+
+    with k.installed(extra=[(psutil, "subprocess", _Subprocess)] if variant == "popen" else []), contextlib.ExitStack() as stack:
+        p = psutil.Popen(["child"]) if variant == "popen" else psutil.Process(P)
         if ctx.flag("inside_oneshot_block"):      # the whole history and the mutator run inside `with p.oneshot():`
             stack.enter_context(p.oneshot())
             log.append("with p.oneshot():")
         for i in range(K):
-            ev = ctx.choice(f"ev{i}", DENY_EVENTS if variant == "deny" else EVENTS)
+            ev = ctx.choice(f"ev{i}", DENY_EVENTS if variant == "deny" else POPEN_EVENTS if variant == "popen" else EVENTS)
             log.append(ev)
-            if ev == "stat-unreadable":
+            if ev == "status-collected":
+                if not state["listed"] or state["zombie"] or state["inc"] != 0:
+                    _Sub.returncode = 0           # the exit status can only be collected once the child has exited
+            elif ev == "stat-unreadable":
                 state["denied"] = True
             elif ev == "stat-readable-again":
                 state["denied"] = False
